@@ -5,7 +5,8 @@
    points[l:r]), every t1, t2; the only hypothesis is the detector's range fact on slices that pass the size gate:
      knee_in_range knee1 t2 lo n  :=  forall l r k, r <= n -> t2 < r - l -> knee1 l r = Some k -> lo <= k /\ k + 2 <= r - l *)
 From Coq Require Import List Arith PrimFloat.
-From Knee Require Import Num NumFloat NpList Proofs.ListFacts Model.MultiKnee Proofs.MultiKneeFacts.
+From Knee Require Import Num NumFloat NpList OrdLaws Proofs.ListFacts Model.MultiKnee Proofs.MultiKneeFacts.
+From Knee Require Import Model.Uts Model.Detectors Proofs.DetectorsFacts Proofs.MultiKneeDetectors.
 Import ListNotations.
 
 (* termination with the model's own fuel within max 1 (2n-1) <= 2n pops; strictly increasing; every index in [lo, n-2];
@@ -63,6 +64,55 @@ Theorem C02_spec_unfold : forall (N : Num) cost (straight : nat -> nat -> T N) k
     end.
 Proof. exact @mk_spec_unfold. Qed.
 Print Assumptions C02_spec_unfold.
+
+(* ---- per-detector corollaries: the range hypothesis discharged from the C09 detector models (Model/Detectors.v; Kneedle's peak
+   selection from Model/Uts.v).  The criterion arrays are oracles keyed by the slice; hypotheses are their shapes only.
+   C02_conclusion cost straight knee1 t1 t2 lo n :=
+     (exists ks tr, multi_knee cost straight knee1 t1 t2 n = Some (ks, tr) /\ length tr <= Nat.max 1 (2 * n - 1) /\ SI ks /\
+                    Forall (fun i => lo <= i /\ i + 2 <= n) ks /\ ks = mk_spec cost straight knee1 t1 t2 0 n) /\
+     mk_holds lo n (mk_step ... 0 n) (mk_obs (multi_knee ... n)) (mk_subL ... n) (mk_subR ... n) = 0      (Tier S unless said) *)
+Theorem C02_curvature : forall (N : Num) cost (straight : nat -> nat -> T N) t1 t2 n (curv : nat -> nat -> list (T N)),
+  (forall l r, r <= n -> t2 < r - l -> length (curv l r) = r - l) ->
+  C02_conclusion cost straight (fun l r => curvature_knee (curv l r)) t1 t2 1 n.
+Proof. exact @mk_curvature. Qed.
+Print Assumptions C02_curvature.
+
+Theorem C02_dfdt : forall (N : Num) cost (straight : nat -> nat -> T N) t1 t2 n
+    (grad : nat -> nat -> list (T N)) (iso : nat -> nat -> nat -> option (T N)),
+  (forall l r, r <= n -> t2 < r - l -> length (grad l r) = r - l) ->
+  C02_conclusion cost straight (fun l r => dfdt_knee (grad l r) (iso l r)) t1 t2 1 n.
+Proof. exact @mk_dfdt. Qed.
+Print Assumptions C02_dfdt.
+
+(* Menger: Tier O (np.argmax([0] + curvatures + [0]) avoids the last index only for an ordered best) ... *)
+Theorem C02_menger : forall (N : Num) cost (straight : nat -> nat -> T N) t1 t2 n (mc : nat -> nat -> list (T N)),
+  TotalPreorderOn (@notnan N) -> isnan (@zero N) = false ->
+  (forall l r, r <= n -> t2 < r - l -> length (mc l r) + 2 = r - l) ->
+  C02_conclusion cost straight (fun l r => menger_knee (mc l r)) t1 t2 0 n.
+Proof. exact @mk_menger. Qed.
+Print Assumptions C02_menger.
+
+(* ... and closed on binary64 *)
+Theorem C02_menger_float : forall cost (straight : nat -> nat -> float) t1 t2 n (mc : nat -> nat -> list float),
+  (forall l r, r <= n -> t2 < r - l -> length (mc l r) + 2 = r - l) ->
+  @C02_conclusion FloatNum cost straight (fun l r => @menger_knee FloatNum (mc l r)) t1 t2 0 n.
+Proof. exact mk_menger_float. Qed.
+Print Assumptions C02_menger_float.
+
+(* L-method: t2 >= 3 (lmethod.knee returns the last index of a 3-point slice, on which the real loop never stops) *)
+Theorem C02_lmethod : forall (N : Num) cost (straight : nat -> nat -> T N) t1 t2 n
+    (lerr : nat -> nat -> nat -> nat -> oval (T N)) it limit,
+  3 <= t2 ->
+  C02_conclusion cost straight (fun l r => lmethod_knee (r - l) (lerr l r) it limit) t1 t2 1 n.
+Proof. exact @mk_lmethod. Qed.
+Print Assumptions C02_lmethod.
+
+(* Kneedle: the highest strict peak of the difference curve dd, or None *)
+Theorem C02_kneedle : forall (N : Num) cost (straight : nat -> nat -> T N) t1 t2 n (dd : nat -> nat -> list (T N)),
+  (forall l r, r <= n -> t2 < r - l -> length (dd l r) = r - l) ->
+  C02_conclusion cost straight (fun l r => highest_peak (dd l r) (all_peaks (dd l r))) t1 t2 1 n.
+Proof. exact @mk_kneedle. Qed.
+Print Assumptions C02_kneedle.
 
 (* non-vacuity: an oracle valuation meeting the hypothesis for every n (the detector answers the middle of any slice of
    more than 3 points), and the model evaluated on it on doubles: 12 points, t1 = 0.5 <= straightness 1.0 *)
